@@ -258,51 +258,44 @@ def fmt(v):
 
 
 def check_int_bounds(ctx, FB):
+    """Definer::new interpreted on definers whose only (or second) enumerator has a value at and next to the limits of the base type: the
+    definer-value diagnostic must be reached exactly for the values the type cannot hold — whatever shape the range test has."""
     F = FB["wow_message_parser"]
     dn = F.fn("crate::parser::types::definer::Definer::new")
     n = 0
     if dn is None:
         ctx.violate("int.bounds", "anchor|Definer::new", "Definer::new not found")
         return
-    cond = None
-    for x in H.walk(dn["hir"]):
-        if H.tag(x) == "if" and any(H.tag(y) == "call" and (H.call_path(y) or "").endswith("::definer_with_invalid_value") for y in H.walk(x[2])):
-            cond = x[1]
-    lim = None
-    for st in H.walk(dn["hir"]):
-        if H.tag(st) == "let" and H.tag(st[1]) == "ptup" and st[2] is not None and len(st[1][1]) == 2 and all(H.tag(p) == "bind" for p in st[1][1]):
-            tup = H.strip(st[2])
-            if H.tag(tup) == "tup" and len(tup[1]) == 2 and all(H.tag(H.strip(e)) == "mcall" and "IntegerType" in (H.mcall(e)["recv_ty"] or "") for e in tup[1]):
-                recvs = {H.local_name(H.strip_refs(H.mcall(e)["recv"])) for e in tup[1]}
-                if len(recvs) == 1 and None not in recvs:
-                    lim = (st[1][1][0][1], st[1][1][1][1], tup, recvs.pop())
-    vals = [y[1] for y in H.walk(cond) if H.tag(y) == "local"] if cond is not None else []
-    if cond is None or lim is None:
-        ctx.violate("int.bounds", "Definer::new|shape", "Definer::new: the enumerator range check (let (a, b) = (ty.<limit>(), ty.<limit>()); if value OP a || value OP b { definer_with_invalid_value }) was not found — review", dn["file"], dn["line"])
-        return
-    value_name = next((v for v in vals if v not in lim[:2]), None)
     it = "wow_message_parser::parser::types::IntegerType"
+
+    def hit(_a):
+        raise _Hit("definer_with_invalid_value")
     for var, (lo, hi) in INT_RANGES.items():
         n += 1
+        verdict = {}
         try:
-            m = Mini(FB, "wow_message_parser")
-            old = m.crate
-            both = m.ev(lim[2], [{lim[3]: ("variant", f"{it}::{var}")}])
-            mn, mx = sorted(both)
-            verdict = {}
             for cand in (lo - 1, lo, hi, hi + 1):
-                env = [{lim[0]: both[0], lim[1]: both[1], value_name: cand}]
-                verdict[cand] = not m.ev(cond, env)
+                for fields in ([_field("A", cand, str(cand))], [_field("A", lo, str(lo)), _field("B", cand, str(cand))]):
+                    if len(fields) == 2 and cand == lo:
+                        continue
+                    m = Mini(FB, "wow_message_parser")
+                    m.overrides = {"::error_printer::definer_with_invalid_value": hit, "::Definer::self_check": lambda a: ()}
+                    try:
+                        m.call_fn(dn["path"], ["T", ("variant", "wow_message_parser::rust_printer::DefinerType::Enum"), [_fill(f) for f in fields], ("variant", f"{it}::{var}"), None, [], None])
+                        ok = True
+                    except _Hit:
+                        ok = False
+                    verdict[(cand, len(fields))] = ok
         except (Unsupported, Panic) as e:
-            ctx.violate("int.bounds", f"{var}|shape", f"enumerator range check for {var}: shape not recognised — review ({e})", dn["file"], dn["line"])
+            ctx.violate("int.bounds", f"{var}|shape", f"enumerator range check for {var}: Definer::new not interpretable — review ({e})", dn["file"], dn["line"])
             continue
-        want = {lo - 1: False, lo: True, hi: True, hi + 1: False}
-        if verdict != want:
-            wrong = [c for c in verdict if verdict[c] != want[c]]
-            c = wrong[0]
-            ctx.violate("int.bounds", f"{var}", f"enumerator values of a definer with base type {var.lower()}: the value {c} is {'accepted' if verdict[c] else 'rejected'} "
-                        f"(limits computed as [{mn}, {mx}]), the type holds exactly [{lo}, {hi}]: an out-of-range enumerator is not reported with the definer-value diagnostic", dn["file"], dn["line"])
-    ctx.rule("int.bounds", n, floor=9, note="accepted enumerator interval per base integer type (comparators x evaluated limits) vs the type's value range")
+        for (cand, k), ok in verdict.items():
+            want = lo <= cand <= hi
+            if ok != want:
+                ctx.violate("int.bounds", f"{var}", f"enumerator values of a definer with base type {var.lower()}: the value {cand} ({'first' if k == 1 else 'second'} enumerator) is {'accepted' if ok else 'rejected'}, "
+                            f"the type holds exactly [{lo}, {hi}]: {'an out-of-range enumerator is not reported with the definer-value diagnostic' if ok else 'a valid definer is rejected'}", dn["file"], dn["line"])
+                break
+    ctx.rule("int.bounds", n, floor=9, note="Definer::new interpreted per base integer type on enumerator values lo-1, lo, hi, hi+1 (as first and as second enumerator): accepted exactly inside the type's value range")
 
 
 def check_clash_loop(ctx, F):
@@ -557,6 +550,68 @@ def witness_table():
         ([vobj("T", ["2.4.3"], 5), vobj("T", ["2.4.3", "3.3.5"], 5)], "overlapping_versions", "two clashing copies of T that share one file position (as paste_versions produces them)"),
     ):
         T.append((want, cv, [objs, []], ov_cv, desc))
+
+    # enumerators named in an if condition must exist in the definer of the variable (every value of an `||` list, every operator)
+    ve = "crate::parser::types::objects::conversion::container::validate_equation"
+    dAB = _definer([_field("A", 1, "1"), _field("B", 2, "2")])
+
+    def ifs_vals(eq, vals):
+        E = "crate::parser::types::if_statement::Equation::"
+        equation = ("struct", E + eq, {"values": list(vals)} if eq != "NotEquals" else {"value": vals[0]})
+        return ("struct", _PC + "parsed_if_statement::ParsedIfStatement", {"variable_name": "x", "equation": equation, "members": [], "else_ifs": [], "else_statement_members": [], "original_ty": None})
+    for eq, vals, want, desc in (("Equals", ["A"], None, "if (x == A), A declared"), ("Equals", ["A", "B"], None, "if (x == A || x == B), both declared"),
+                                 ("Equals", ["Z"], "variable_in_if_not_found", "if (x == Z), Z not an enumerator"),
+                                 ("Equals", ["A", "Z"], "variable_in_if_not_found", "if (x == A || x == Z): the second enumerator does not exist"),
+                                 ("Equals", ["A", "B", "Z"], "variable_in_if_not_found", "if (x == A || x == B || x == Z): the last enumerator does not exist"),
+                                 ("BitwiseAnd", ["A", "Z"], "variable_in_if_not_found", "if (x & A || x & Z): the second enumerator does not exist"),
+                                 ("BitwiseAnd", ["B"], None, "if (x & B), B declared"),
+                                 ("NotEquals", ["Z"], "variable_in_if_not_found", "if (x != Z), Z not an enumerator"), ("NotEquals", ["B"], None, "if (x != B), B declared")):
+        T.append((want, ve, [_cont([]), ifs_vals(eq, vals), dAB], {}, desc))
+    # base integer type of an enum / flag
+    ifs_ = "crate::parser::types::IntegerType::from_str"
+    for name, want in (("u8", None), ("u16", None), ("u32", None), ("u64", None), ("i8", None), ("i16", None), ("i32", None), ("i64", None), ("u48", None),
+                       ("f32", "invalid_integer_type"), ("Bool", "invalid_integer_type"), ("CString", "invalid_integer_type"), ("Guid", "invalid_integer_type"),
+                       ("u128", "invalid_integer_type"), ("MyEnum", "invalid_integer_type"), ("U8", "invalid_integer_type")):
+        T.append((want, ifs_, [name, "T", None], {}, f"enum T : {name}"))
+    # an upcast `(u32)X` is only supported on a user type
+    wu = "crate::parser::types::parsed::parsed_ty::ParsedType::with_upcast"
+    ov_up = {"::IntegerType::from_str": lambda a: ("int", a[0])}
+    for name, want in (("MyEnum", None), ("Other", None), ("u8", "unsupported_upcast"), ("u32", "unsupported_upcast"), ("CString", "unsupported_upcast"), ("Guid", "unsupported_upcast"),
+                       ("Bool", "unsupported_upcast"), ("f32", "unsupported_upcast"), ("PackedGuid", "unsupported_upcast"), ("UpdateMask", "unsupported_upcast")):
+        T.append((want, wu, [name, "u32", "C", "m", None], ov_up, f"(u32){name} m"))
+
+    # version tags of one object may not overlap each other (`versions = "1.12 1.12.1"`)
+    iwv = _PC + "parsed_tags::ParsedTags::insert_world_version"
+    VP = "wow_message_parser::parser::types::version"
+    for have, new, want, desc in (
+        ([], ("Minor", 1, 12), None, "first version of an object"),
+        ([("Minor", 1, 12)], ("Patch", 2, 4, 3), None, "1.12 then 2.4.3"),
+        ([("Minor", 1, 12), ("Patch", 2, 4, 3)], ("Major", 3), None, "1.12 2.4.3 then 3"),
+        ([("Minor", 1, 12)], ("Patch", 1, 12, 1), "version_tags_overlap", "1.12 then 1.12.1 (the first covers the second)"),
+        ([("Patch", 2, 4, 3)], ("Major", 2), "version_tags_overlap", "2.4.3 then 2 (the second covers the first)"),
+        ([("Minor", 1, 12), ("Patch", 2, 4, 3)], ("Minor", 2, 4), "version_tags_overlap", "1.12 2.4.3 then 2.4: overlaps the second tag only"),
+        ([("Minor", 1, 12), ("Patch", 2, 4, 3), ("Major", 3)], ("Exact", 3, 3, 5, 12340), "version_tags_overlap", "1.12 2.4.3 3 then 3.3.5.12340: overlaps the last tag only"),
+        ([("Minor", 1, 12)], ("Minor", 1, 12), "version_tags_overlap", "the same version twice"),
+    ):
+        tg = _tags([wv(h, VP) for h in have], [])
+        T.append((want, iwv, [tg, wv(new, VP), "T", None], {}, desc))
+    # a type may not contain itself; a member type must exist
+    szp = _PC + "parsed_ty::ParsedType::sizes_parsed"
+    PT = "wow_message_parser::parser::types::parsed::parsed_ty::ParsedType::"
+    ov_sz2 = {"::conversion::get_definer": lambda a: "None", "::conversion::get_container": lambda a: "None", "::conversion::get_related": lambda a: [], "::Sizes::new": lambda a: ("sizes",),
+              "::ParsedContainer::tags": lambda a: ("tags",)}
+    for tyname, want, desc in (("C", "recursive_type", "struct C { C inner; }"), ("Missing", "complex_not_found", "struct C { Missing m; } with no such type")):
+        T.append((want, szp, [("struct", PT + "Identifier", {"s": tyname, "upcast": "None"}), _cont([]), [], []], ov_sz2, desc))
+    # an upcast to the definer's own base type is rejected
+    ptt = "crate::parser::types::objects::conversion::container::parsed_type_to_type"
+    IT = "wow_message_parser::parser::types::IntegerType::"
+    for base, up, want in (("U8", "U32", None), ("U8", "U8", "type_is_upcast_to_same"), ("U32", "U32", "type_is_upcast_to_same"), ("U16", "U64", None)):
+        d = _definer([], "Enum")
+        d[2]["basic_type"] = ("variant", IT + base)
+        ov_pt = {"::conversion::get_definer": (lambda d: (lambda a: ("Some", d)))(d), "::Definer::clone": lambda a: a[0], "Clone::clone": lambda a: a[0]}
+        T.append((want, ptt, [_cont([]), [], [], ("struct", PT + "Identifier", {"s": "T", "upcast": ("Some", ("variant", IT + up))}), ("tags",)], ov_pt, f"({up.lower()})T m with enum T : {base.lower()}"))
+    T.append(("complex_not_found", ptt, [_cont([]), [], [], ("struct", PT + "Identifier", {"s": "Missing", "upcast": "None"}), ("tags",)],
+              {"::conversion::get_definer": lambda a: "None", "::conversion::get_container": lambda a: "None", "::conversion::get_related": lambda a: [], "::ParsedContainer::tags": lambda a: ("tags",)}, "member of a type that is not defined for the container's versions"))
     it = _PC + "parsed_tags::ParsedTags::into_tags"
     ov = {"::ObjectTags::from_parsed": lambda args: ("tags-built",), "::into_bool": lambda args: False, "::into_bool_with_default": lambda args: False}
     T += [("object_has_both_versions", it, [_tags(["w1"], ["l1"]), "T", None, False], ov, "object with world and login versions"),
